@@ -12,7 +12,8 @@
 //!   dump                                              local store content
 //!   sput <max> <len> <hdr> <existing>                 direct `RecordStore::put` (see sput.rs)
 //! path c|r; kind chunkp chunk padp pad txp tx regp reg; content C<id> | S<owner>.<n>.<v|w|n> |
-//! T<owner>.<t>.<v|i>[,...] | T- | R<id>.<g|a|b>.<ops|-> (op = <id><v|u|f>) | X (undecodable);
+//! T<owner>.<t>.<v|i>[,...] | T- | R<id>.<g|a|b>.<ops|-> (op = <id><v|u|f|s|z>: valid / unpermitted writer /
+//! other register's address / forged signature / oversize entry) | X (undecodable);
 //! pay - | q,q,..;close with q = payee.signer.sig.time.content.valid.amount, close = ids joined by '.' or '-'.
 //! Output: `<result class> | <command trace>` with H/G store reads, K closest-peers query, V contract call,
 //! P<amount> payment notification, W<key>=<content> local put, F<key>:<type> fetch-completed,
@@ -126,7 +127,7 @@ fn oracle(ctx: &Ctx, d: &Delivery, res: &str, puts: &[(libp2p::kad::RecordKey, l
         }
         if desc.starts_with('T') || desc.starts_with('R') || desc.starts_with('A') {
             let new_ids = id_set(&desc);
-            if new_ids.iter().any(|s| s.ends_with('!') || s == "999") {
+            if desc.contains('!') || new_ids.iter().any(|s| s == "999") {
                 out.oracle_fail("C07:invalid-never-stored", &hist, &format!("invalid entry stored at {}: {desc}", key_str(key)));
             }
             let prev_ids = prev_desc.as_deref().map(id_set).unwrap_or_default();
@@ -136,11 +137,14 @@ fn oracle(ctx: &Ctx, d: &Delivery, res: &str, puts: &[(libp2p::kad::RecordKey, l
             // nothing that was not validly delivered for this key appears
             let delivered: Vec<String> = match &d.content {
                 DContent::Txs(v) => v.iter().filter(|t| t.valid && Some(3 * t.owner + 1) == kn).map(|t| t.t.to_string()).collect(),
-                DContent::Reg { ops, base, id } if Some(3 * id + 2) == kn => ops
-                    .iter()
-                    .filter(|o| o.cls == 'v' || (o.cls == 'u' && *base == RegBase::Alt))
-                    .map(|o| o.id.to_string())
-                    .collect(),
+                // a register is accepted as a whole: owner signature valid and every op permitted
+                DContent::Reg { ops, base, id }
+                    if Some(3 * id + 2) == kn
+                        && *base != RegBase::Bad
+                        && ops.iter().all(|o| o.cls == 'v' || ((o.cls == 'u' || o.cls == 's') && *base == RegBase::Alt)) =>
+                {
+                    ops.iter().map(|o| o.id.to_string()).collect()
+                }
                 _ => vec![],
             };
             for n in &new_ids {
@@ -199,7 +203,7 @@ fn oracle_after(ctx: &Ctx, d: &Delivery, res: &str, before: &Store, out: &mut Ou
             }
         }
         DContent::Reg { ops, base, .. } if *base != RegBase::Bad => {
-            let all_ok = ops.iter().all(|o| o.cls == 'v' || (o.cls == 'u' && *base == RegBase::Alt));
+            let all_ok = ops.iter().all(|o| o.cls == 'v' || ((o.cls == 'u' || o.cls == 's') && *base == RegBase::Alt));
             let held_alt = now.as_deref().map(|s| s.starts_with('A'));
             if all_ok && held_alt == Some(*base == RegBase::Alt) {
                 let held = now.as_deref().map(id_set).unwrap_or_default();
@@ -330,7 +334,7 @@ pub fn exec_line(ctx: &mut Ctx, line: &str, out: &mut Out) -> String {
 }
 
 fn main() {
-    std::panic::set_hook(Box::new(|_| {}));
+    if std::env::var("VERIF_PANIC").is_err() { std::panic::set_hook(Box::new(|_| {})); }
     let args = common::parse_args();
     let mode = args.extra.get("mode").cloned().unwrap_or_else(|| "c03".into());
     let mut out = Out::new(&args.out);
